@@ -424,3 +424,119 @@ def class_methods(cls):
 
 def base_names(cls):
     return [dotted(b) for b in cls.bases]
+
+
+# --------------------------------------------------------------------------
+# AST pattern matching with metavariables (rename-tolerant structural rules)
+# --------------------------------------------------------------------------
+
+def _pm(p, n, env):
+    """unify pattern node p with node n.  In patterns, a Name `X_foo` matches
+    any Name (consistently), `E_foo` matches any expression (consistently, by
+    structure), `_` alone matches anything."""
+    if isinstance(p, ast.Name):
+        if p.id == "ANY_":
+            return True
+        if p.id.startswith("X_"):
+            if not isinstance(n, ast.Name):
+                return False
+            if p.id in env:
+                return env[p.id] == n.id
+            env[p.id] = n.id
+            return True
+        if p.id.startswith("E_"):
+            if not isinstance(n, ast.expr):
+                return False
+            d = ast.dump(n)
+            if p.id in env:
+                return env[p.id] == d
+            env[p.id] = d
+            return True
+    if isinstance(p, ast.Expr) and isinstance(p.value, ast.Name) and p.value.id == "STMTS_":
+        return True
+    if type(p) is not type(n):
+        return False
+    for f in p._fields:
+        if f in ("ctx", "type_comment", "kind", "lineno", "col_offset", "end_lineno", "end_col_offset"):
+            continue
+        a, b = getattr(p, f, None), getattr(n, f, None)
+        if isinstance(a, list):
+            if not isinstance(b, list):
+                return False
+            # a trailing STMTS_ in a pattern body matches any remaining statements
+            if a and isinstance(a[-1], ast.Expr) and isinstance(getattr(a[-1], "value", None), ast.Name) and a[-1].value.id == "STMTS_":
+                if len(b) < len(a) - 1:
+                    return False
+                pairs = zip(a[:-1], b)
+            else:
+                if len(a) != len(b):
+                    return False
+                pairs = zip(a, b)
+            for x, y in pairs:
+                if isinstance(x, ast.AST):
+                    if not _pm(x, y, env):
+                        return False
+                elif x != y:
+                    return False
+        elif isinstance(a, ast.AST):
+            if not isinstance(b, ast.AST) or not _pm(a, b, env):
+                return False
+        elif a != b:
+            return False
+    return True
+
+
+_PAT_CACHE = {}
+
+
+def pattern(src):
+    """parse a statement or expression pattern"""
+    if src not in _PAT_CACHE:
+        t = ast.parse(src.strip())
+        node = t.body[0]
+        if isinstance(node, ast.Expr) and len(t.body) == 1 and not src.strip().endswith(";"):
+            node = node.value if not _is_stmt_pattern(src) else node
+        _PAT_CACHE[src] = node
+    return _PAT_CACHE[src]
+
+
+def _is_stmt_pattern(src):
+    s = src.strip()
+    return s.endswith(")") and False
+
+
+def pmatch(src, node, env=None):
+    """does `node` match the pattern `src`?  returns the binding dict or None"""
+    p = pattern(src)
+    if isinstance(node, ast.Expr) and not isinstance(p, ast.stmt):
+        node = node.value
+    e = dict(env or {})
+    return e if _pm(p, node, e) else None
+
+
+def pfind(src, root, env=None):
+    """first node under root (inclusive) matching the pattern; (node, env) or (None, None)"""
+    p = pattern(src)
+    want_stmt = isinstance(p, ast.stmt)
+    for n in ast.walk(root):
+        if want_stmt != isinstance(n, ast.stmt) and not (isinstance(n, ast.Expr) and not want_stmt):
+            continue
+        if isinstance(n, ast.Expr) and not want_stmt:
+            continue
+        e = pmatch(src, n, env)
+        if e is not None:
+            return n, e
+    return None, None
+
+
+def pall(src, root, env=None):
+    out = []
+    p = pattern(src)
+    want_stmt = isinstance(p, ast.stmt)
+    for n in ast.walk(root):
+        if want_stmt != isinstance(n, ast.stmt):
+            continue
+        e = pmatch(src, n, env)
+        if e is not None:
+            out.append((n, e))
+    return out
